@@ -512,6 +512,9 @@ pub fn workload(name: &str, tier: &str) -> Option<Box<dyn Workload>> {
         "c05corpus" => Some(Box::new(c05::CorpusTrivia {
             variants: if quick { 8 } else { 200 },
         })),
+        "c05corpusrw" => Some(Box::new(c05::CorpusRewrites {
+            variants: if quick { 16 } else { 400 },
+        })),
         "c05" => Some(Box::new(c05::Rewrites {
             n: if quick { 12_000 } else { 300_000 },
         })),
